@@ -238,7 +238,9 @@ def refused_means_unchanged(obj, fn):
             return obj
         raise
     # ... and compared AFTER it with the same reads on a fresh array over the same storage
-    fresh = attempt(lambda: summary_views(type(obj)(obj.chunked_array, validate=False)))
+    # (a validating construction: it also normalises the layout - a missing row holds nothing - so a write that leaves elements
+    # hidden under a missing row shows up as a difference in the offsets-based quantities)
+    fresh = attempt(lambda: summary_views(type(obj)(obj.chunked_array)))
     if fresh[0] == "ok":
         mine = attempt(lambda: summary_views(obj))
         assert mine[0] == "ok" and mine[1] == fresh[1], \
@@ -578,10 +580,20 @@ def op_setitem(rng, inp, malformed=False, via_series=False, force_multi=False, f
         if ragged and ts:
             j = rng.randrange(len(ts))
             ts[j] = gen_table(rng, schema, ragged=True, nan_ok=True)
+        raw_hidden = vkind == "nea" and not ragged and rng.random() < 0.5
+        if raw_hidden and ts:
+            ts[rng.randrange(len(ts))] = None          # at least one missing entry (which will hide elements)
         lrows = [table_to_lrow(schema, t) for t in ts]
         if vkind == "nea" and not ragged:
             st = gen.struct_type(schema)
-            value = NEA(pa.array([None if t is None else t for t in ts], type=st))
+            if not raw_hidden:
+                value = NEA(pa.array([None if t is None else t for t in ts], type=st))
+            else:
+                # a raw Arrow struct array whose MISSING entries still span elements of the value buffers
+                arrays_ = [pa.array([(t[nm] if t is not None else [v_ for v_ in (gen.gen_value(rng, ty_, 0) for _ in range(2))]) for t in ts],
+                                    type=pa.list_(gen.TYPES[ty_])) for nm, ty_ in schema]
+                value = pa.StructArray.from_arrays(arrays_, names=[nm for nm, _ in schema],
+                                                   mask=pa.array([t is None for t in ts], type=pa.bool_())) if ts else pa.array([], type=st)
             nls = [False] * len(ts)             # an Arrow array: values as they are
         elif rng.random() < 0.3 and not ragged:
             value = pd.Series([table_to_value(rng, schema, t, "df_arrow") if t is not None else None for t in ts],
